@@ -126,10 +126,11 @@ PROPS["C18"] = {
              "no other security events; Send refused without output while finished; clear text output in plaintext state without require-encryption. Transmissions (observer-decrypted): each text verbatim at most once and in Send order; "
              "'[resent] ' only for the most recent text, at most once, only after an ?OTR Error received while encrypted, never for non-text messages. Non-trivial: >=2 sessions for one party or a resend occurred."),
     "assumptions": COMMON_ASSUME,
-    "exhaustive_checks": ["C18queued", "C18ended", "C18faults"],
+    "exhaustive_checks": ["C18queued", "C18ended", "C18peerend", "C18faults"],
     "tests": [
         {"name": "TestProp_C18_Queued", "kind": "plain", "quick": {"shards": 4, "timeout": 600}, "thorough": {"shards": 4, "timeout": 3000}},
         {"name": "TestProp_C18_Ended", "kind": "plain", "quick": {"shards": 4, "timeout": 600}, "thorough": {"shards": 4, "timeout": 3000}},
+        {"name": "TestProp_C18_PeerEnds", "kind": "plain", "quick": {"shards": 4, "timeout": 600}, "thorough": {"shards": 4, "timeout": 3000}},
         {"name": "TestProp_C18_Faults", "kind": "plain", "quick": {"shards": 8, "timeout": 600}, "thorough": {"shards": 16, "timeout": 3000}},
         {"name": "TestProp_C18_Lifecycle", "quick": {"shards": 8, "checks": 150, "timeout": 400}, "thorough": {"shards": 16, "checks": 3000, "timeout": 3000}},
     ],
@@ -336,7 +337,7 @@ PROPS["C06"] = {
 
 PROPS["C08"] = {
     "level": "exploration",
-    "exhaustive_checks": ["C08faults"],
+    "exhaustive_checks": ["C08faults", "C08peerend"],
     "technique": "property-based testing (rapid, lifecycle scripts) with an invariant over the reachable object graph: a reflect/unsafe walker (no otr3 identifiers) searches everything reachable from the conversation, to slice capacity and big-integer limbs, for every secret the tracked randomness source ever handed out and for every text token; retired secrets are additionally checked for in-place erasure through retained aliases",
     "level_text": "after every API call of generated histories (rotations, re-AKE, abandoned AKE, SMP, End, peer disconnect, queued texts): at most current+previous DH exponent (+1 during a key exchange) reachable, nothing of a finished/abandoned exchange, nothing after End/disconnect, no sent text except queued ones and the most recent, and every buffer that ever held a now-unreachable secret has been zeroed",
     "level_note": "copies on goroutine stacks, in the garbage collector or inside crypto/constbn internals are invisible; the AKE value r is public once revealed, so only the place it was drawn into is judged; SMP exponents are judged for reachability after End/disconnect only; under v2 SMP is left out of the scripts (its 16-byte exponents cannot be told from r)",
@@ -347,6 +348,7 @@ PROPS["C08"] = {
     "tests": [
         {"name": "TestProp_C08_Secrets", "quick": {"shards": 8, "checks": 60, "timeout": 600}, "thorough": {"shards": 16, "checks": 1500, "timeout": 3000}},
         {"name": "TestProp_C08_Faults", "kind": "plain", "quick": {"shards": 4, "timeout": 600}, "thorough": {"shards": 4, "timeout": 3000}},
+        {"name": "TestProp_C08_PeerEnds", "kind": "plain", "quick": {"shards": 4, "timeout": 600}, "thorough": {"shards": 4, "timeout": 3000}},
     ],
 }
 
